@@ -20,7 +20,7 @@ ASSUMPTIONS = ["the baa primitives (cmp_*, arithmetic on word slices) are correc
 LEVEL_TEXT = ("Exhaustive sibling-table comparison (35 variants) of the evaluator against the IR's stated SMT-LIB meaning plus a contradiction rule over the dependency's two code paths per operation: decides operator identity, operand order and "
               "signedness for every operator at once, including operators and widths no test evaluates. Arithmetic inside baa is trusted.")
 LEVEL_NOTE = "Decides which baa operation each variant maps to and in which operand order; trusts the numeric kernels of baa except for the one-word/multi-word agreement rule."
-TECHNIQUE = "arm-table extraction with symbolic stack simulation vs. an SMT-LIB oracle table; Engler-style sibling-branch contradiction rule on the dependency"
+TECHNIQUE = "arm-table extraction with symbolic stack simulation vs. an SMT-LIB oracle table; Engler-style sibling-branch contradiction rule on the dependency; whole-value write rule on the value store"
 
 # oracle: variant -> term over children c0.. and attributes (SMT-LIB meaning, stated by nodes.rs names/docs)
 ORACLE = {
